@@ -104,7 +104,7 @@ fn value(rng: &mut Rng, pool: Option<&[VariationRegion]>) -> ValueRecordBuilder 
         v = v.with_x_placement(rng.range(-50, 50) as i16);
     }
     if let Some(p) = pool {
-        if rng.chance(1, 5) {
+        if rng.chance(1, 25) {
             v = v.with_x_advance_device(deltas(rng, p));
         }
     }
@@ -114,10 +114,10 @@ fn value(rng: &mut Rng, pool: Option<&[VariationRegion]>) -> ValueRecordBuilder 
 fn anchor(rng: &mut Rng, pool: Option<&[VariationRegion]>) -> AnchorBuilder {
     let mut a = AnchorBuilder::new(rng.range(-1000, 1000) as i16, rng.range(-1000, 1000) as i16);
     if let Some(p) = pool {
-        if rng.chance(1, 6) {
+        if rng.chance(1, 30) {
             a = a.with_x_device(deltas(rng, p));
         }
-        if rng.chance(1, 9) {
+        if rng.chance(1, 50) {
             a = a.with_y_device(deltas(rng, p));
         }
     }
@@ -709,10 +709,10 @@ pub fn canonical_inputs(seed: u64, thorough: bool) -> Vec<Input> {
         let l = pairpos_class_lookup(&mut rng, 150, 150, None, &mut store);
         dump_gpos_gdef(vec![l], store)
     }));
-    v.push(mk("gpos-markbase-1500bases", "gpos-builder", 60, move || {
+    v.push(mk("gpos-markbase-900bases", "gpos-builder", 60, move || {
         let mut rng = Rng::derive(seed, "c07-mb", 0);
         let mut store = VariationStoreBuilder::new(AXES);
-        let l = markbase_lookup(&mut rng, 300, 60, 400, None, &mut store);
+        let l = markbase_lookup(&mut rng, 300, 12, 900, None, &mut store);
         dump_gpos_gdef(vec![l], store)
     }));
     v.push(mk("gpos-markbase-variable", "gpos-builder", 60, move || {
@@ -755,7 +755,7 @@ pub fn canonical_inputs(seed: u64, thorough: bool) -> Vec<Input> {
     v.push(mk("gvar-300glyphs-60tuples-equal-counts", "gvar", 60, move || gvar_equal_counts(seed, 300, 60, 4)));
     v.push(mk("gvar-120glyphs-120tuples-count2", "gvar", 120, move || gvar_equal_counts(seed, 120, 120, 2)));
     v.push(mk("ivs-80regions-400rows", "ivs", 400, move || ivs_many(seed, 80, 400, false)));
-    v.push(mk("ivs-60regions-2000rows", "ivs", 2000, move || ivs_many(seed, 60, 2000, false)));
+    v.push(mk("ivs-60regions-700rows", "ivs", 700, move || ivs_many(seed, 60, 700, false)));
     v.push(mk("ivs-direct-64regions-300rows", "ivs", 64, move || ivs_many(seed, 64, 300, true)));
     v.push(mk("colr-synth-400", "colr", 0, move || colr_synth(seed, 400)));
     v.push(mk("fontbuilder-synth-layout-font", "fontbuilder", 80, move || {
